@@ -819,13 +819,16 @@ GLSDEFS = ('\\gls@defglossaryentry{ylab}%\n{%\nname={yglsname},%\ntext={yglstext
 
 
 def random_document(rnd, size=None, lang='en', kinds=None, max_depth=5, glossary_file=None, theorems=True,
-                    end_pressure=None, pack='*,.yvm.ext', preamble_extra=''):
+                    end_pressure=None, pack='*,.yvm.ext', preamble_extra='', preamble=True):
     pk = pkgs_of(pack)
     if 'glossaries' not in pk:
         glossary_file = None
     g = Gen(rnd, lang=lang, kinds=kinds, max_depth=max_depth, glossary=bool(glossary_file), pkgs=pk)
     g.w(preamble_extra)
-    g.w(PREAMBLE)
+    if preamble:
+        g.w(PREAMBLE)
+    else:
+        g.pool = [k for k in g.pool if not k.startswith('usermac')]
     if theorems:
         g.theorems = [('ythm', 'Ytheorem'), ('ylem', 'Ylemma')]
         g.w('\\newtheorem{ythm}{Ytheorem}\n\\newtheorem{ylem}[ythm]{Ylemma}\n')
